@@ -42,6 +42,8 @@ type session struct {
 	ep     *exporter.ExportingProcess
 	domain uint32
 	seen   int // deliveries consumed
+	// template ids of earlier cases of this session (datagram transports: late arrivals are recognised by them)
+	retired map[uint16]bool
 }
 
 var (
@@ -71,7 +73,7 @@ func newSession(cfg config, domain uint32) (*session, error) {
 		coll.Stop(10 * time.Second)
 		return nil, err
 	}
-	return &session{cfg: cfg, coll: coll, ep: ep, domain: domain}, nil
+	return &session{cfg: cfg, coll: coll, ep: ep, domain: domain, retired: map[uint16]bool{}}, nil
 }
 
 func newExporter(cfg config, addr string, domain uint32) (*exporter.ExportingProcess, error) {
@@ -92,15 +94,31 @@ func (s *session) close() {
 
 func (s *session) stream() bool { return s.cfg.proto == "tcp" }
 
-// next waits for the next delivery of this session.
-func (s *session) next(timeout time.Duration) (*lib.Delivery, bool) {
-	ds, ok := s.coll.Wait(s.domain, s.seen+1, timeout)
-	if !ok {
-		return nil, false
+// next waits for the next delivery of this session that belongs to the current case.
+// Over datagram transports a datagram of an EARLIER case may arrive late (a large datagram
+// that was given up on, or the duplicate created by a re-send): such deliveries are skipped
+// and counted; over stream transports nothing is ever skipped.
+func (s *session) next(c *hx.Ctx, timeout time.Duration, tid uint16, wantTemplate bool) (*lib.Delivery, bool) {
+	deadline := time.Now().Add(timeout)
+	for {
+		ds, ok := s.coll.Wait(s.domain, s.seen+1, time.Until(deadline))
+		if !ok {
+			return nil, false
+		}
+		d := ds[s.seen]
+		s.seen++
+		if !s.stream() && d.Out.ExtractErr == nil {
+			if d.Out.SetID != tid && s.retired[d.Out.SetID] {
+				c.Add("late_datagram_of_an_earlier_case_skipped", 1)
+				continue
+			}
+			if d.Out.SetID == tid && d.Out.IsTemplate && !wantTemplate {
+				c.Add("duplicate_template_datagram_from_resend_skipped", 1)
+				continue
+			}
+		}
+		return &d, true
 	}
-	d := ds[s.seen]
-	s.seen++
-	return &d, true
 }
 
 func main() {
@@ -206,6 +224,19 @@ func main() {
 			// same long-lived collector (an exporter restart). Its template ids start again at 256, so the
 			// collector sees earlier template ids redefined. (Not over DTLS: that collector serves one session.)
 			s.ep.CloseConnToCollector()
+			if !s.stream() {
+				// let datagrams still in flight be delivered before template ids start again at 256
+				for last, quiet := -1, 0; quiet < 3; {
+					n := len(s.coll.Get(s.domain))
+					if n == last {
+						quiet++
+					} else {
+						quiet, last = 0, n
+					}
+					time.Sleep(100 * time.Millisecond)
+				}
+				s.seen = len(s.coll.Get(s.domain))
+			}
 			ep, err := newExporter(cfg, s.coll.Addr(), s.domain)
 			if err != nil {
 				c.Inconclusive("exporter turnover: " + err.Error())
@@ -236,6 +267,8 @@ func oneCase(c *hx.Ctx, k int, s *session, elems []regtable.Elem, recs [][][]byt
 		return false
 	}
 	tid := s.ep.NewTemplateID()
+	delete(s.retired, tid)
+	defer func() { s.retired[tid] = true }()
 	r := c.Rand(k, 1)
 	attempts := 1
 	if !s.stream() {
@@ -256,7 +289,7 @@ func oneCase(c *hx.Ctx, k int, s *session, elems []regtable.Elem, recs [][][]byt
 		if !s.stream() {
 			wait = 3 * time.Second
 		}
-		d, ok := s.next(wait)
+		d, ok := s.next(c, wait, tid, true)
 		if ok {
 			td = d
 		} else if s.stream() {
@@ -318,9 +351,12 @@ func oneCase(c *hx.Ctx, k int, s *session, elems []regtable.Elem, recs [][][]byt
 			wait = 3 * time.Second
 			if !required {
 				wait = 400 * time.Millisecond
+				if !s.cfg.enc {
+					wait = 3 * time.Second
+				}
 			}
 		}
-		d, ok := s.next(wait)
+		d, ok := s.next(c, wait, tid, false)
 		if ok {
 			dd = d
 		} else if s.stream() {
